@@ -11,6 +11,8 @@ mod ops_apply;
 mod ops_case;
 mod ops_variant;
 mod ops_serde;
+mod ops_undo;
+mod ops_lock;
 mod ops_renameplan;
 mod ops_clap;
 mod ops_scope;
@@ -22,6 +24,8 @@ const HANDLERS: &[fn(&[&str]) -> Option<String>] = &[
     ops_case::dispatch,
     ops_variant::dispatch,
     ops_serde::dispatch,
+    ops_undo::dispatch,
+    ops_lock::dispatch,
     ops_renameplan::dispatch,
     ops_clap::dispatch,
     ops_scope::dispatch,
